@@ -321,6 +321,10 @@ func (rn *Runner) Run() {
 			rn.runAdvThroughClient(cfg)
 			break
 		}
+		if sc.Prior == "authobj" {
+			rn.runAdvSameAuthObject(cfg)
+			break
+		}
 		cfg.Auth = func(st *tls.ConnectionState) refsmtp.AuthHandler {
 			return &adv{rn: rn, script: sc.Script, tlsState: st, salt: []byte("adv-salt-" + fmt.Sprint(rn.T))}
 		}
@@ -390,6 +394,46 @@ func (rn *Runner) runAdvThroughClient(cfg refsmtp.Config) {
 			s.Wait(10 * time.Second)
 		}
 	}
+}
+
+// runAdvSameAuthObject: the caller's Auth object has been through an exchange that FAILED at the server signature; it is
+// used again on a new connection, where the adversary replays what it remembers of the first one.
+func (rn *Runner) runAdvSameAuthObject(cfg refsmtp.Config) {
+	sc, r := rn.Sc, rn.Rec
+	shared := &adv{rn: rn, salt: []byte("adv-salt-" + fmt.Sprint(rn.T))}
+	var script []string
+	cfg.Auth = func(st *tls.ConnectionState) refsmtp.AuthHandler {
+		shared.script, shared.i, shared.tlsState = script, 0, st
+		if shared.srvFirst != "" && shared.cFinalWO != "" {
+			shared.prevAM = shared.cfBare + "," + shared.srvFirst + "," + shared.cFinalWO
+		}
+		shared.cfBare, shared.srvFirst, shared.cFinalWO, shared.lastFirst, shared.cFinalAny, shared.lastWasV = "", "", "", "", "", false
+		return shared
+	}
+	auth := mechAuth(sc.Mech, advUser, advPass, nil)
+	script = []string{"empty", "validFirst", "otherFinal"}
+	c1, srv1, _, err := rn.connect(cfg, "")
+	if err != nil {
+		rn.Infra = err
+		return
+	}
+	if aerr := c1.Auth(auth); aerr == nil {
+		rn.Infra = fmt.Errorf("the first exchange (forged server signature) did not fail")
+		return
+	}
+	_ = c1.Close()
+	srv1.Wait(10 * time.Second)
+	r.Emit("newconn")
+	script = sc.Script
+	c2, srv2, _, err := rn.connect(cfg, "")
+	if err != nil {
+		rn.Infra = err
+		return
+	}
+	aerr := c2.Auth(auth)
+	r.Emit("ret", "ok", aerr == nil, "text", clip(aerr))
+	_ = c2.Close()
+	srv2.Wait(10 * time.Second)
 }
 
 func clip(err error) string {
